@@ -12,6 +12,7 @@ struct Mixed {
     Ctx        &ctx;
     std::string path;
     int         ndds = 16;
+    bool        cache_off = false; // Hcache(fid, FALSE) right after every Hopen
     int32       fid = FAIL, sdid = FAIL, grid = FAIL, anid = FAIL;
     bool        vstarted = false;
     bool        on_disk  = false;
@@ -55,6 +56,8 @@ struct Mixed {
         if (MX("Hopen", fid == FAIL))
             return false;
         on_disk = true;
+        if (cache_off)
+            MX("Hcache", Hcache(fid, FALSE) == FAIL);
         if (MX("Vstart", Vstart(fid) == FAIL))
             return false;
         vstarted = true;
@@ -189,11 +192,22 @@ struct Mixed {
             MX("Hsync", Hsync(fid) == FAIL);
             return true;
         }
+        if (k == "hdup") { // alias an existing plain element under another ref (new descriptor, no new data)
+            if (!need_h())
+                return true;
+            uint16 tag = htag(o.arg(0)), ref = href(o.arg(1));
+            uint16 ntag = (uint16)(htag(o.arg(2)) + 200), nref = href(o.arg(3));
+            if (!hlen.count({(int)tag, (int)ref}) || hlen.count({(int)ntag, (int)nref}))
+                return false;
+            if (!MX("Hdupdd", Hdupdd(fid, ntag, nref, tag, ref) == FAIL))
+                hlen[{(int)ntag, (int)nref}] = hlen[{(int)tag, (int)ref}];
+            return true;
+        }
         if (k == "hput" || k == "hlink" || k == "happend" || k == "hread" || k == "hdel") {
             if (!need_h())
                 return true;
             bool   lk  = o.arg(0) != 0;
-            uint16 tag = (uint16)(htag(o.arg(1)) + (lk ? 100 : 0)), ref = href(o.arg(2));
+            uint16 tag = (uint16)(htag(o.arg(1)) + (o.arg(0) == 2 ? 200 : lk ? 100 : 0)), ref = href(o.arg(2));
             auto   key = std::make_pair((int)tag, (int)ref);
             if (k == "hput") {
                 int64_t len = std::max<int64_t>(1, o.arg(3));
@@ -653,7 +667,7 @@ struct MixedGen {
     // read ops covering every object name the workload can create
     static void read_all(std::vector<Op> &ops)
     {
-        for (int lk = 0; lk < 2; lk++)
+        for (int lk = 0; lk < 3; lk++)
             for (int t = 0; t < 3; t++)
                 for (int r = 0; r < 8; r++)
                     ops.push_back(mkop(0, "hread", {lk, t, r}));
